@@ -38,7 +38,7 @@
 //! Generator domain (what "structurally valid" means here): canonical enum values (no `Unknown(n)`
 //! for an assigned n), opcode < 16, rcode < 4096, TSIG time < 2^48, ECS address bytes beyond
 //! ceil(prefix/8) zero, SVCB params strictly ascending with values of the key's kind, CAA tag 1..15
-//! alphanumerics, TSIG `Unknown` algorithm names relative (the decoder clears fqdn), OPT/TSIG set with
+//! alphanumerics, every name fully qualified except TSIG `Unknown` algorithm names, which are relative (the decoder clears fqdn), OPT/TSIG set with
 //! set_edns/set_signature, SIG only in the additional section.
 
 use std::collections::{BTreeMap, BTreeSet};
@@ -688,7 +688,13 @@ fn gen_b_rdata(r: &mut Rng, t: &str) -> RData {
             RData::CAA(c)
         }
         "CERT" => RData::CERT(CERT::new((lim(r, 10, 65536) as u16).into(), r.below(65536) as u16, (r.below(256) as u8).into(), rbytes(r, 1, 60))),
-        "CSYNC" => RData::CSYNC(CSYNC::new(r.next() as u32, r.chance(1, 2), r.chance(1, 2), gen_types(r))),
+        "CSYNC" => {
+            let mut c = CSYNC::new(r.next() as u32, r.chance(1, 2), r.chance(1, 2), gen_types(r));
+            if r.chance(1, 4) {
+                c.reserved_flags = (r.below(256) as u16) << 8; // the decoder only rejects bits 2..7
+            }
+            RData::CSYNC(c)
+        }
         "HINFO" => RData::HINFO(HINFO::from_bytes(rbytes(r, 0, 30).into_boxed_slice(), if r.chance(1, 10) { r.bytes(255).into_boxed_slice() } else { rbytes(r, 0, 30).into_boxed_slice() })),
         "HTTPS" => RData::HTTPS(HTTPS(gen_svcb(r))),
         "SVCB" => RData::SVCB(gen_svcb(r)),
@@ -1459,7 +1465,7 @@ fn handmade(r: &mut Rng) -> Vec<u8> {
     b.push(0);
     b.extend_from_slice(&[0, 255, 0, 1]);
     let mut offs: Vec<usize> = vec![12, 16, 24];
-    let hm_name = |r: &mut Rng, b: &Vec<u8>, offs: &mut Vec<usize>, at: usize, force_plain: bool| -> Vec<u8> {
+    let hm_name = |r: &mut Rng, offs: &mut Vec<usize>, at: usize, force_plain: bool| -> Vec<u8> {
         let mut n = vec![];
         let ptr = |r: &mut Rng, offs: &Vec<usize>| {
             let t = *r.pick(offs);
@@ -1480,7 +1486,6 @@ fn handmade(r: &mut Rng) -> Vec<u8> {
                 offs.push(at);
             }
         }
-        let _ = b;
         n
     };
     let n = r.range(1, 6);
@@ -1504,7 +1509,7 @@ fn handmade(r: &mut Rng) -> Vec<u8> {
             b.push(0);
         } else {
             let at = b.len();
-            let o = hm_name(r, &b, &mut offs, at, false);
+            let o = hm_name(r, &mut offs, at, false);
             b.extend_from_slice(&o);
         }
         b.extend_from_slice(&ty.to_be_bytes());
@@ -1522,7 +1527,7 @@ fn handmade(r: &mut Rng) -> Vec<u8> {
             33 => {
                 b.extend_from_slice(&r.bytes(6));
                 let at = b.len();
-                let x = hm_name(r, &b, &mut offs, at, plain);
+                let x = hm_name(r, &mut offs, at, plain);
                 b.extend_from_slice(&x);
             }
             35 => {
@@ -1532,20 +1537,20 @@ fn handmade(r: &mut Rng) -> Vec<u8> {
                     b.extend_from_slice(s);
                 }
                 let at = b.len();
-                let x = hm_name(r, &b, &mut offs, at, plain);
+                let x = hm_name(r, &mut offs, at, plain);
                 b.extend_from_slice(&x);
             }
             24 | 46 => {
                 b.extend_from_slice(&[0, 1, 8, 2]);
                 b.extend_from_slice(&r.bytes(14));
                 let at = b.len();
-                let x = hm_name(r, &b, &mut offs, at, plain);
+                let x = hm_name(r, &mut offs, at, plain);
                 b.extend_from_slice(&x);
                 b.extend_from_slice(&rbytes(r, 0, 20));
             }
             47 => {
                 let at = b.len();
-                let x = hm_name(r, &b, &mut offs, at, plain);
+                let x = hm_name(r, &mut offs, at, plain);
                 b.extend_from_slice(&x);
                 // sometimes a non-minimal bitmap (trailing zero octet): the decoder keeps the original bytes
                 b.extend_from_slice(if r.chance(1, 2) { &[0, 2, 0x40, 0x01] } else { &[0, 3, 0x40, 0x01, 0x00] });
@@ -1553,30 +1558,30 @@ fn handmade(r: &mut Rng) -> Vec<u8> {
             64 | 65 => {
                 b.extend_from_slice(&r.bytes(2));
                 let at = b.len();
-                let x = hm_name(r, &b, &mut offs, at, plain);
+                let x = hm_name(r, &mut offs, at, plain);
                 b.extend_from_slice(&x);
-                match r.below(4) {
-                    0 => b.extend_from_slice(&[0, 3, 0, 2, 1, 187]),
-                    1 => b.extend_from_slice(&[0, 1, 0, 3, 2, b'h', b'2', 0, 3, 0, 2, 0, 80]),
-                    2 => b.extend_from_slice(&[0, 3, 0, 3, 1, 187, 9]), // port with a trailing octet
+                match r.below(16) {
+                    0..=3 => b.extend_from_slice(&[0, 3, 0, 2, 1, 187]),
+                    4..=7 => b.extend_from_slice(&[0, 1, 0, 3, 2, b'h', b'2', 0, 3, 0, 2, 0, 80]),
+                    8 => b.extend_from_slice(&[0, 3, 0, 3, 1, 187, 9]), // port with a trailing octet (known finding C02-svcb-port-trailing)
                     _ => {}
                 }
             }
             65305 | 2 | 5 | 12 => {
                 let at = b.len();
-                let x = hm_name(r, &b, &mut offs, at, plain);
+                let x = hm_name(r, &mut offs, at, plain);
                 b.extend_from_slice(&x);
             }
             15 => {
                 b.extend_from_slice(&r.bytes(2));
                 let at = b.len();
-                let x = hm_name(r, &b, &mut offs, at, plain);
+                let x = hm_name(r, &mut offs, at, plain);
                 b.extend_from_slice(&x);
             }
             6 => {
                 for _ in 0..2 {
                     let at = b.len();
-                    let x = hm_name(r, &b, &mut offs, at, plain);
+                    let x = hm_name(r, &mut offs, at, plain);
                     b.extend_from_slice(&x);
                 }
                 b.extend_from_slice(&r.bytes(20));
@@ -1595,7 +1600,7 @@ fn handmade(r: &mut Rng) -> Vec<u8> {
                     v.push(0);
                     v
                 } else {
-                    hm_name(r, &b, &mut offs, at, plain)
+                    hm_name(r, &mut offs, at, plain)
                 };
                 b.extend_from_slice(&x);
                 b.extend_from_slice(&r.bytes(6));
@@ -1751,10 +1756,10 @@ fn case(seed: u64, index: u64, st: &mut Stat) -> CaseOut {
         };
     }
     // ---- C
-    let sub = r.below(300);
+    let sub = r.below(600);
     let (kind, bytes): (String, Option<Vec<u8>>) = if sub < 2 {
         ("bytes-overflow".into(), Some(overflow_input(&mut r, sub)))
-    } else if sub < 90 {
+    } else if sub < 180 {
         let b = handmade(&mut r);
         st.attempts += 1;
         let e = st.by_mut.entry("handptr".into()).or_default();
@@ -1814,7 +1819,7 @@ fn case(seed: u64, index: u64, st: &mut Stat) -> CaseOut {
                 note_variants(st, &m1);
             }
             let f = oracle_bytes(b).err();
-            (f, format!("{}B {}", b.len(), hex(&b[..b.len().min(80)])), hex(b), true)
+            (f, format!("{}B {}", b.len(), hex(&b[..b.len().min(1024)])), hex(b), true)
         }
         None => (None, "no mutation accepted by the decoder".to_string(), format!("rej{index}"), false),
     };
@@ -1830,7 +1835,35 @@ fn case(seed: u64, index: u64, st: &mut Stat) -> CaseOut {
     }
 }
 
+/// the comparison must see what `PartialEq` of Record / Name / OPT does not: TTL, case, option order
+fn self_test() {
+    let n = Name::from_ascii("Www.ExAmple.COM.").unwrap();
+    let mut a = Message::new(1, MessageType::Response, OpCode::Query);
+    a.add_answer(Record::from_rdata(n.clone(), 300, RData::SRV(SRV::new(1, 2, 3, n.clone()))));
+    let mut e = Edns::new();
+    e.options_mut().insert(EdnsOption::Unknown(10, vec![1]));
+    e.options_mut().insert(EdnsOption::Unknown(11, vec![2]));
+    a.set_edns(e);
+    assert!(deep_eq(&a, &a.clone(), false).is_ok());
+    let mut b = a.clone();
+    b.answers[0].ttl = 301;
+    assert!(deep_eq(&a, &b, false).is_err(), "ttl");
+    let mut b = a.clone();
+    b.answers[0].name = n.to_lowercase();
+    assert!(deep_eq(&a, &b, false).is_err(), "owner case");
+    let mut b = a.clone();
+    b.answers[0].data = RData::SRV(SRV::new(1, 2, 3, n.to_lowercase()));
+    assert!(a.answers[0] == b.answers[0] && deep_eq(&a, &b, false).is_err(), "rdata name case");
+    let mut b = a.clone();
+    b.edns.as_mut().unwrap().options_mut().options.reverse();
+    assert!(a.edns == b.edns && deep_eq(&a, &b, false).is_err(), "option order");
+    let mut b = a.clone();
+    b.metadata.response_code = ResponseCode::BADVERS;
+    assert!(deep_eq(&a, &b, true).is_err(), "rcode");
+}
+
 fn main() {
+    self_test();
     if std::env::var("VPH_LOUD").is_err() {
         quiet_panics();
     }
